@@ -37,3 +37,46 @@ def plan_for(prop: str, tier: str) -> Optional[Dict[str, Any]]:
             ],
         }
     return None
+
+
+E2_RULE = (
+    "E2 history-sim: one run = one long-lived interpreter (fork of the pristine zygote) executing a seeded history "
+    "of 6-28 operations (format_code with drawn options, any rule reachable from format_code, the re-like pattern "
+    "API with templates harvested from pyrefact's own sources, verbatim repeats at short distance, re-formatting of "
+    "earlier outputs, eviction pressure, plain core.parse calls, lazily consumed / interleaved / abandoned finditer "
+    "and find_replace generators) over 2-5 focus inputs (corpus snippets, ignore-comment variants, joined snippets, "
+    "generated modules) under a drawn cache-size table {default, unbounded, small, tiny, mixed}; every judged "
+    "operation is compared with the same call in a fresh fork of the zygote under the same knobs and wrappers (O1), "
+    "every cache hit of core.parse / compile_template / _group_nodes_in_scope is checked against a fresh "
+    "parse / compilation / walk (O2-O4), trees handed out during a rule are re-checked at rule exit, and "
+    "sys.path / sys.stdout must be restored. distinct = distinct (rule or entry point, cache-state class in "
+    "{cold, warm, warm-same-text, warm-after-abort}, knob table); non-trivial = the judged operation hit a parse-cache "
+    "entry for a text that an earlier operation of the history had parsed."
+)
+
+
+def _e2_plan(prop, tier):
+    q = tier == "quick"
+    return {
+        "rule": E2_RULE,
+        "batches": [
+            {"engine": "e2_history", "label": "sweep", "n": 128, "indexed": True, "kwargs": {"sweep": True}, "timeout": 900.0},
+            {"engine": "e2_history", "label": "hist", "n": 400 if q else 20000, "timeout": 600.0},
+            {"engine": "e2_history", "label": "hist-faults", "n": 200 if q else 10000, "kwargs": {"faults": True}, "timeout": 600.0},
+        ],
+        "probes": ["parse.hits", "template.hits", "group.hits", "judged_op_hit_entry_touched_before", "fault.abort_fired", "op.LAZY_STEP"],
+        "assumptions": [
+            "the reference is the same call in a pristine fork of the zygote with the same cache-size table and the same observing wrappers; subject and reference differ by history only",
+            "cache sizes are treated as tuning knobs: the property must hold for every size",
+            "aborts model an exception escaping a call (SimAbort, a BaseException); aborted operations are not judged, only later ones",
+        ],
+    }
+
+
+_plan_for_e1 = plan_for
+
+
+def plan_for(prop, tier):  # noqa: F811
+    if prop == "C05":
+        return _e2_plan(prop, tier)
+    return _plan_for_e1(prop, tier)
